@@ -22,10 +22,11 @@ while read -r c p; do
   if ! git -C /repo show "$c" -- . | git -C /repo apply -R 2>/dev/null; then
      # later fixes touched the same lines: try a 3-way reverse
      if ! git -C /repo show "$c" -- . | git -C /repo apply -R -3 2>/dev/null; then
-        git -C /repo checkout -q -- . ; git -C /repo reset -q
-        echo "$c $p reverse patch does not apply (later fix on the same lines)" | tee -a $OUT; continue
+        git -C /repo reset -q --hard HEAD
+        echo "$c $p reverse patch does not apply any more (a later fix changed the same lines); last result while it applied: $(grep -a -h "^$c $p " tools/revert_fix_results_history.txt 2>/dev/null | tail -1 | cut -d' ' -f3-)" | tee -a $OUT; continue
      fi
      git -C /repo reset -q
+     git -C /repo diff --quiet || true
   fi
   res=""
   for tier in quick thorough; do
@@ -36,6 +37,7 @@ while read -r c p; do
   done
   git -C /repo checkout -q -- .
   echo "$c $p $res" | tee -a $OUT
+  case "$res" in *VIOLATION*) echo "$c $p $res" >> tools/revert_fix_results_history.txt;; esac
 done < /tmp/revert_list.txt
 rm -f /tmp/revert_list.txt
 git -C /repo status --short | head -3
